@@ -104,7 +104,8 @@ def skeleton_report():
     bad_edges, bad_peer_closes, nonconforming [names], detail (text), size,
     retry_total_ms)."""
     rep = dict(ok=False, error="", obligations={}, bad_client_sends=[], bad_edges=[],
-               bad_peer_closes=[], nonconforming=[], detail="", size=None, retry_total_ms=None)
+               bad_peer_closes=[], nonconforming=[], uncovered_senders=[], detail="", size=None,
+               retry_total_ms=None)
     ok, log = common.coq_make(["Conc/Skeleton.vo", "Conc/Stall.vo", "gen/GenSkeleton.vo"], keep_going=True)
     if not ok:
         rep["error"] = "Conc/Skeleton or gen/GenSkeleton does not compile:\n" + log[-2500:]
@@ -116,17 +117,19 @@ def skeleton_report():
         rep["error"] = "Conc/SkelReport.v does not compile:\n" + out[-2500:]
         return rep
     bl = _blocks(out)
-    if len(bl) < 8:
+    if len(bl) < 9:
         rep["error"] = "unexpected report output:\n" + out[-1500:]
         return rep
     rep["obligations"] = {m.group(1): m.group(2) == "true"
                           for m in re.finditer(r'\(\s*"([a-z_]+)",\s*(true|false)\s*\)', bl[0])}
-    rep["bad_client_sends"] = re.findall(r'\(\s*"([^"]+)",\s*(\d+)\s*\)', bl[1])
-    rep["bad_edges"] = re.findall(r'\(\s*"([^"]+)",\s*(K[A-Za-z]+),\s*(\d+)\s*\)', bl[2])
-    rep["bad_peer_closes"] = re.findall(r'\(\s*"([^"]+)",\s*(\d+)\s*\)', bl[3])
+    rep["bad_client_sends"] = re.findall(r'\(\s*"([^"]+)",\s*(\d+)(?:%N)?\s*\)', bl[1])
+    rep["bad_edges"] = re.findall(r'\(\s*"([^"]+)",\s*(K[A-Za-z]+),\s*(\d+)(?:%N)?\s*\)', bl[2])
+    rep["bad_peer_closes"] = re.findall(r'\(\s*"([^"]+)",\s*(\d+)(?:%N)?\s*\)', bl[3])
     rep["nonconforming"] = re.findall(r'"([^"]+)"', bl[4])
     rep["detail"] = bl[5][:6000]
-    m = re.findall(r"(\d+)%nat", bl[6])
+    rep["uncovered_senders"] = re.findall(r'\(\s*"([^"]+)",\s*(\d+)(?:%N)?\s*\)', bl[6])
+    bl = bl[:6] + bl[7:]
+    m = re.findall(r"(\d+)", bl[6])
     rep["size"] = dict(functions=int(m[0]), operations=int(m[1]), entry_points=int(m[2])) if len(m) == 3 else None
     m = re.search(r"(\d+)", bl[7])
     rep["retry_total_ms"] = int(m.group(1)) if m else None
@@ -142,6 +145,8 @@ def focus_functions(rep, names):
     for f, _k, _line in rep.get("bad_edges", []):
         fs.add(f)
     for f, _line in rep.get("bad_peer_closes", []):
+        fs.add(f)
+    for f, _line in rep.get("uncovered_senders", []):
         fs.add(f)
     for n in rep.get("nonconforming", []):
         m = re.search(r"\(([^)]+)\)", n)
